@@ -103,6 +103,7 @@ namespace Givaro {
             if (this != &R) // guard against self-assignment
             {
                 _givrand = R._givrand;
+                _size = R._size;
                 const_cast<Ring&>(_ring) = R._ring;
             }
 
@@ -153,7 +154,7 @@ namespace Givaro {
         const Ring& _ring;
 
         /// Random generator
-        const Residu_t _size;
+        Residu_t _size;
         GivRandom _givrand;
 
 
@@ -225,6 +226,7 @@ namespace Givaro {
             if (this != &R)
             {
                 _givrand = R._givrand;
+                _size = R._size;
                 const_cast<Ring&>(_ring) = R._ring;
             }
             return *this;
@@ -275,7 +277,7 @@ namespace Givaro {
 
         /// Random generator
         GivRandom _givrand;
-        const Residu_t _size;
+        Residu_t _size;
 
         /// Ring
         const Ring& _ring;
